@@ -57,6 +57,11 @@ def exact_step(A, r0, Q, dt, theta):
     return Q + np.linalg.solve(I - theta * dt * A, dt * (A @ Q + r0))
 
 
+def exact_step_array(A, r0, Q, dtv, theta):
+    """per-cell time steps: (D^-1 - theta A) dQ = A Q + r0 with D = diag(dt_i): each cell's own equation is divided by its own step"""
+    return Q + np.linalg.solve(np.diag(1.0 / dtv) - theta * A, A @ Q + r0)
+
+
 def fields(n):
     out = [("zero", np.zeros(n)), ("ones", np.ones(n))]
     for j in range(n):
@@ -122,6 +127,37 @@ def check_linear(a, rname, mspec, bc, res=None):
                     out.append((site + "/time", "%s cfl %g: time advanced from 0.25 to %r, dt=%r" % (iname, cfl, f.time, dt)))
                 if fname.startswith("S") and cfl not in (0.5, 10.0):
                     continue
+                # per-cell time-step arrays (what the dtlocal directive hands to step): the local CFL steps of a non-uniform mesh and a generic pattern
+                if n >= 2 and not fname.startswith("S"):
+                    for aname, dtv in (("local", cfl * np.asarray(mesh.vol(), float) / abs(a)), ("pattern", dt * (1.0 + 0.5 * (np.arange(n) % 3)))):
+                        if np.all(dtv == dtv[0]):
+                            continue
+                        sv = cls(mesh, disc)
+                        fa = space.field.fdata(model, mesh, [Q0.copy()], t=0.25)
+                        try:
+                            with np.errstate(all="ignore"):
+                                sv.step(fa, dtv.copy())
+                        except Exception as e:
+                            out.append((site + "/exception", "%s step with a dt array raised %r" % (iname, e)))
+                            continue
+                        wa = exact_step_array(A, r0, Q0, dtv, th)
+                        err = np.abs(fa.data[0] - wa).max() / (sc + 1e-300) if sc > 0 else np.abs(fa.data[0]).max()
+                        if res is not None:
+                            res.evals += 1
+                            res.worst("linear-step-dt-array/tau", err / (LIN * (1 + cfl * dtv.max() / dtv.min())))
+                        if not err <= LIN * (1 + cfl * dtv.max() / dtv.min()):
+                            out.append((site + "/dt-array-%s" % aname, "%s a=%g %s mesh %r %s cfl %g field %s: step with the per-cell dt array %r is off (D^-1 - theta A) dQ = A Q by %.3g" % (
+                                iname, a, rname, mspec, bc, cfl, fname, dtv.tolist(), err)))
+                        elif not abs(fa.time - (0.25 + dtv.min())) <= 4 * EPS * (0.25 + dtv.min()):
+                            out.append((site + "/dt-array-time", "%s: time advanced to %r with min dt %r" % (iname, fa.time, dtv.min())))
+                        elif gear:
+                            Qm, Qn = Q0.copy(), fa.data[0].copy()
+                            with np.errstate(all="ignore"):
+                                sv.step(fa, dtv.copy())
+                            w2 = Qn + np.linalg.solve(1.5 * np.diag(1.0 / dtv) - A, A @ Qn + r0 + 0.5 * (Qn - Qm) / dtv)
+                            err = np.abs(fa.data[0] - w2).max() / (max(np.abs(Qn).max(), sc) + 1e-300)
+                            if not err <= LIN * (1 + cfl * dtv.max() / dtv.min()):
+                                out.append((site + "/dt-array-bdf2", "gear a=%g %s mesh %r cfl %g field %s: second step with a dt array is off the BDF2 system by %.3g" % (a, rname, mspec, cfl, fname, err)))
                 if not gear:
                     # second step on the same object with another dt: the linear system must be rebuilt for the new dt
                     Q1 = f.data[0].copy()
